@@ -1310,8 +1310,14 @@ def oracle_preempt(c, obs):
 
 
 def gen_threadpool(rng):
-    return dict(kind="threadpool", workers=rng.randint(1, 3),
-                tasks=[dict(at=rng.choice([0, 0, 1000, 2000, 5000]), time=rng.choice([0, 1000, 3000, 5000])) for _ in range(rng.randint(1, 8))])
+    c = dict(kind="threadpool", workers=rng.randint(1, 3),
+             tasks=[dict(at=rng.choice([0, 0, 1000, 2000, 5000]), time=rng.choice([0, 1000, 3000, 5000])) for _ in range(rng.randint(1, 8))])
+    if rng.random() < 0.5:
+        # a burst arriving at the very instant at which running tasks complete (all workers busy, queue empty)
+        t = rng.choice([1000, 3000])
+        c["tasks"] = [dict(at=0, time=t) for _ in range(c["workers"])] + \
+                     [dict(at=t, time=rng.choice([1000, 3000])) for _ in range(rng.randint(3, 5))] + c["tasks"][:2]
+    return c
 
 
 def impl_threadpool(c):
@@ -1322,15 +1328,23 @@ def impl_threadpool(c):
     samples = []
     orig = tp.handle_queued_event
 
+    running = [0, 0]          # tasks whose body is executing right now (the harness' own count), and its maximum
+
     def traced(event):
         gen = orig(event)
+        started = False
         try:
             v = next(gen)
+            started = True
+            running[0] += 1
+            running[1] = max(running)
             while True:
                 samples.append(tp.active_workers)
                 x = yield v
                 v = gen.send(x)
         except StopIteration as e:
+            if started:
+                running[0] -= 1
             samples.append(tp.active_workers)
             return e.value
 
@@ -1342,7 +1356,7 @@ def impl_threadpool(c):
     summary, verdict = run_bounded(sim, max_events_per_instant=600, max_events=20000, wall_s=20.0)
     st = tp.stats
     return dict(verdict=verdict, samples=samples, completed=st.tasks_completed, rejected=st.tasks_rejected,
-                active=tp.active_workers, queued=tp.queued_tasks)
+                active=tp.active_workers, queued=tp.queued_tasks, max_running=running[1], still_running=running[0])
 
 
 def oracle_threadpool(c, obs):
@@ -1350,6 +1364,9 @@ def oracle_threadpool(c, obs):
         return [dict(clause="waiting consumes no simulated activity", verdict=obs["verdict"])]
     if any(x > c["workers"] or x < 0 for x in obs["samples"]) or obs["active"] != 0:
         return [dict(clause="a thread pool never runs more tasks than it has workers and returns every worker", samples=obs["samples"], active=obs["active"])]
+    if obs["max_running"] > c["workers"]:
+        return [dict(clause="a thread pool never runs more tasks than it has workers (task bodies executing at once, counted by the harness)",
+                     max_running=obs["max_running"], workers=c["workers"])]
     return []
 
 
@@ -1504,7 +1521,7 @@ def impl_direct(c):
     return DIRECT_KINDS[c.get("family_kind") or c["kind"]][1](c)
 
 
-_sim_family, _ = _combined("sim", SIM_KINDS, dict(threadpool=0.4, barrier=0.8, condition=0.5, poolwarm=0.5), True)
+_sim_family, _ = _combined("sim", SIM_KINDS, dict(threadpool=1.0, barrier=0.8, condition=0.5, poolwarm=0.5), True)
 _sim_family.impl = impl_sim
 _direct_family, _ = _combined("direct", DIRECT_KINDS, dict(resource_direct=2, limiter=1.5, preemptible=1), False)
 _direct_family.impl = impl_direct
